@@ -16,8 +16,22 @@ def coqc_big(chk, fname, timeout=600):
     return p.returncode == 0
 
 
-def flow(chk, pid, lemma_file, prop_file, search, n_corr, n_search, rule):
+def flow(chk, pid, lemma_file, prop_file, search, n_corr, n_search, rule, decorator=False):
     deep = False
+    gen_files, lemma_files, refused = ["ClassTable.v"], [lemma_file], {}
+    if decorator:
+        # ---- T1: translate the helpers of _decorator.py from their CURRENT source text (fail-closed)
+        rc0, tdoc, tout = chk.bridge_json("trans_decorator.py", [os.path.join(chk.build, "Gen_decorator.v")], timeout=120)
+        gen_files.append("Gen_decorator.v")
+        lemma_files.append("C14_decorator_lemmas.v")
+        if rc0 != 0 or tdoc is None:
+            refused = {"_decorator.py": (tout or "")[-300:]}
+        else:
+            refused = tdoc["refused"]
+            chk.cov["translated_helpers"] = tdoc["translated"]
+        for name, why in refused.items():
+            chk.broken.append({"file": "trans_decorator.py", "item": "translator:" + name,
+                               "coqc_output": "source outside the recognised shape: " + why})
     # ---- T3: regenerate the class table
     rc, doc, out = chk.bridge_json("classtab.py", [os.path.join(chk.build, "ClassTable.v"),
                                                    os.path.join(chk.build, "table.json")], timeout=300)
@@ -29,7 +43,7 @@ def flow(chk, pid, lemma_file, prop_file, search, n_corr, n_search, rule):
     else:
         chk.notes.append("class table: " + json.dumps(doc))
         chk.cov["class_table"] = doc
-        proofs_ok = chk.compile_chain(["ClassTable.v"], [lemma_file], prop_file, timeout=600)
+        proofs_ok = chk.compile_chain(gen_files, lemma_files, prop_file, timeout=600)
     # ---- T2: correspondence
     corr_fail = []
     if rc == 0 and doc is not None and os.path.exists(os.path.join(chk.build, "ClassTable.vo")):
@@ -50,6 +64,20 @@ def flow(chk, pid, lemma_file, prop_file, search, n_corr, n_search, rule):
                 corr_fail = c["failures"]
     else:
         chk.broken.append({"file": "ClassTable.v", "item": "class table does not compile", "coqc_output": ""})
+    # ---- correspondence of the translated helpers themselves (object model vs real Python)
+    if decorator and not refused and os.path.exists(os.path.join(chk.build, "Gen_decorator.vo")):
+        rcd, gd, outd = chk.bridge_json("corr_decorator.py", ["gen", str(chk.seed), "180", chk.build], timeout=300)
+        if gd is None:
+            chk.broken.append({"file": "corr_decorator.py", "item": "translator correspondence generation", "coqc_output": outd[-1500:]})
+        else:
+            coqc_big(chk, "Cases_decorator.v")
+            rcd2, cd, outd2 = chk.bridge_json("corr_decorator.py", ["cmp", chk.build], timeout=300)
+            if cd is None:
+                chk.broken.append({"file": "Cases_decorator", "item": "translated helpers (vm_compute)", "coqc_output": (outd2 or "")[-1500:]})
+            else:
+                chk.add_cases(cd["compared"], cd["agree"], [], "")
+                chk.cov["decorator_correspondence"] = {"compared": cd["compared"], "agree": cd["agree"]}
+                corr_fail = corr_fail + cd["failures"]
     for f in corr_fail:
         deep = True
     # ---- search on the implementation (property as stated)
